@@ -223,6 +223,7 @@ class Engine:
         self.contracts = contracts or {}
         self.loop_invariants = loop_invariants or {}
         self.unknown_ok = unknown_ok
+        self.on_yield = None
         self.path = None
         self.frames = []
         self.guards = []
@@ -456,7 +457,14 @@ class Engine:
         elif isinstance(s, ast.If):
             self.exec_if(s)
         elif isinstance(s, ast.Expr):
-            self.ev(s.value)
+            if isinstance(s.value, ast.Yield):
+                # generator functions are run eagerly: each yield is reported to the hook
+                v = self.ev(s.value.value) if s.value.value is not None else None
+                if self.on_yield is None:
+                    raise Refuse('yield without a consumer model')
+                self.on_yield(self, v, s)
+            else:
+                self.ev(s.value)
         elif isinstance(s, ast.Return):
             raise _Return(self.ev(s.value) if s.value is not None else None)
         elif isinstance(s, ast.For):
